@@ -54,6 +54,52 @@ struct Built {
     include_levels: u64,
 }
 
+/// Renames the level macros `M<i>` / `N<i>` (whole identifiers only) so that the names of neighbouring levels overlap.
+fn rename_levels(text: &str, scheme: u64) -> String {
+    let b = text.as_bytes();
+    let is_id = |c: u8| c.is_ascii_alphanumeric() || c == b'_' || c == b'$';
+    let mut out = String::with_capacity(text.len() + 64);
+    let mut i = 0;
+    while i < b.len() {
+        if is_id(b[i]) && (i == 0 || !is_id(b[i - 1])) {
+            let mut j = i;
+            while j < b.len() && is_id(b[j]) {
+                j += 1;
+            }
+            let id = &text[i..j];
+            let num = if (id.starts_with('M') || id.starts_with('N')) && id.len() > 1 && id.len() < 6 && id[1..].bytes().all(|c| c.is_ascii_digit()) {
+                id[1..].parse::<usize>().ok()
+            } else {
+                None
+            };
+            match num {
+                Some(k) => {
+                    let head = &id[..1];
+                    match scheme {
+                        1 => out.push_str(&format!("{}{}", head, "x".repeat(k))),
+                        2 => out.push_str(&format!("{}{}", head, "x".repeat(120usize.saturating_sub(k)))),
+                        _ => {
+                            if k % 2 == 1 {
+                                out.push_str(&format!("{}L{}", head, k))
+                            } else {
+                                out.push_str(&format!("{}L{}_IMPL", head, k - 1))
+                            }
+                        }
+                    }
+                }
+                None => out.push_str(id),
+            }
+            i = j;
+        } else {
+            // copy one whole character (the text may hold non-ASCII filler)
+            let ch = text[i..].chars().next().unwrap();
+            out.push(ch);
+            i += ch.len_utf8();
+        }
+    }
+    out
+}
+
 /// `refs[i]` = the level that level i refers to (None: level i holds the leaf marker).
 /// Macro mechanisms: levels 1.. are macros of the top file. File mechanisms: level 0 is the top file.
 fn build(mech: &str, refs: &[Option<u64>], marker: &str, rng: &mut Rng, dirs: &[String]) -> Built {
@@ -336,6 +382,27 @@ impl Property for C09 {
                 dirs.push(d);
             }
         }
+        // decoration: level names that overlap textually (a level's name is a prefix of / extends / is the stem of the
+        // name it refers to). The names carry no meaning, so every verdict is unchanged. Drawn from a stream of its
+        // own so that the other decorations keep their values (C09-r7a: a "self-reference" shortcut that matches
+        // the macro's own name inside its text as a substring)
+        let mut names = "";
+        {
+            let mut nrng = Rng::new(run_seed(seed, "C09-names", run));
+            if is_macro && nrng.chance(1, 3) {
+                let scheme = 1 + nrng.below(3);
+                names = match scheme {
+                    1 => "+names-extending",
+                    2 => "+names-shrinking",
+                    _ => "+names-stem-impl",
+                };
+                for node in sc.vfs.iter_mut() {
+                    if let VNode::File { bytes: Bytes::Text(t), .. } = node {
+                        *t = rename_levels(t, scheme);
+                    }
+                }
+            }
+        }
         sc.knobs.stack_mib = match (rep + base) % 3 {
             0 => 2,
             1 => 8,
@@ -379,7 +446,7 @@ impl Property for C09 {
         ops.push(Op::Call(c));
         sc.threads = vec![ops];
         let sib = if heavy { "+heavy-payload" } else if sc.family == "siblings" { "+siblings" } else { "" };
-        sc.family = format!("{}:{}{}{}{}", mech, if is_cycle { "cycle" } else { "chain" }, n, if prefix > 0 { format!("+after{}failing", prefix) } else { String::new() }, sib);
+        sc.family = format!("{}:{}{}{}{}", mech, if is_cycle { "cycle" } else { "chain" }, n, if prefix > 0 { format!("+after{}failing", prefix) } else { String::new() }, format!("{}{}", sib, names));
         sc.expect = json!({
             "mechanism": mech,
             "shape": if is_cycle { "cycle" } else { "chain" },
